@@ -95,6 +95,30 @@ ENTRIES: dict[str, tuple[Callable, list]] = {
     "fori_negative_range": (lambda x: lax.fori_loop(5, 2, lambda i, v: v + 1.0, x), [[V]]),
     "switch2": (lambda i, x: lax.switch(i, [lambda v: v + 1.0, lambda v: v * 2.0], x), [[i32(0), V], [i32(1), V], [i32(5), V], [i32(-3), V]]),
     "select_n3": (lambda i, x: lax.select_n(i, x, x * 2.0, x * 3.0), [[np.array([0, 1, 2, 1, 0], i32), V]]),
+    # non-identity init values are folded into EVERY window by JAX (max with 0.0 = relu(maxpool))
+    "reduce_window_max_init0_valid": (lambda x: lax.reduce_window(x, 0.0, lax.max, (2, 2), (1, 1), "VALID"), [[-np.abs(A)], [A]]),
+    "reduce_window_min_init0_valid": (lambda x: lax.reduce_window(x, 0.0, lax.min, (2, 2), (1, 1), "VALID"), [[np.abs(A) + 1.0], [A]]),
+    "reduce_window_add_init1_valid": (lambda x: lax.reduce_window(x, 1.0, lax.add, (2, 2), (1, 1), "VALID"), [[A]]),
+    "reduce_window_max_init0_same": (lambda x: lax.reduce_window(x, 0.0, lax.max, (2, 2), (1, 1), "SAME"), [[-np.abs(A)]]),
+    "reduce_window_base_dilation": (lambda x: lax.reduce_window(x, -jnp.inf, lax.max, (2, 2), (1, 1), "VALID", base_dilation=(2, 1)), [[A]]),
+    "reduce_window_mul": (lambda x: lax.reduce_window(x, 1.0, lax.mul, (2, 1), (1, 1), "VALID"), [[A]]),
+    "reduce_custom_monoid": (lambda x: lax.reduce(x, jnp.array(0.0, f32), lambda a, b: a + b * 2.0, (1,)), [[A]]),
+    "reduce_max_init0": (lambda x: lax.reduce(x, jnp.array(0.0, f32), lax.max, (1,)), [[-np.abs(A)]]),
+    "cumsum_reverse_axis1": (lambda x: lax.cumsum(x, axis=1, reverse=True), [[A]]),
+    "cumlogsumexp_reverse": (lambda x: lax.cumlogsumexp(x, axis=0, reverse=True), [[V]]),
+    "sort_two_operands": (lambda a, b: lax.sort((a, b), dimension=0, num_keys=1)[1], [[np.array([2.0, 1.0, 2.0, 3.0, 1.0], f32), V]]),
+    "sort_descending_axis": (lambda x: jnp.sort(x, axis=0, descending=True), [[A]]),
+    "conv_batch_groups": (
+        lambda x: lax.conv_general_dilated(x, jnp.arange(2 * 2 * 2 * 4, dtype=f32).reshape(2, 2, 2, 4) * 0.1, (1, 1), "VALID", batch_group_count=2, dimension_numbers=("NHWC", "HWIO", "NHWC")),
+        [[np.arange(2 * 3 * 3 * 2, dtype=f32).reshape(2, 3, 3, 2) * 0.1]],
+    ),
+    "integer_pow_negative": (lambda x: lax.integer_pow(x, -2), [[V]]),
+    "rem_float_neg": (lambda x: lax.rem(x, jnp.array(2.0, f32)), [[V]]),
+    "iota_dim1": (lambda x: x + lax.broadcasted_iota(f32, (3, 4), 1), [[A]]),
+    "argmax_int_index_dtype": (lambda x: lax.argmax(x, 1, jnp.int32), [[A]]),
+    "reduce_and_ints": (lambda a: lax.reduce(a, jnp.array(-1, i32), lax.bitwise_and, (0,)), [[IV]]),
+    "clamp_tensor_bounds": (lambda x: lax.clamp(x * 0.0 - 1.0, x, x * 0.0 + 2.0), [[V]]),
+    "expand_dims_neg": (lambda x: jnp.expand_dims(x, (-1, 0)), [[V]]),
 }
 
 NAMES = sorted(ENTRIES)
